@@ -301,6 +301,11 @@ MEDIA = {
     'print': (['print'], ('print',)),
     'screen and (min-width:1px)': (['screen', R(), 'and', R(), '(', O(), 'min-width', O(), ':', O(), '1px', O(), ')'], ('screen', 'and', '(', 'min-width', ':', '1px', ')')),
     'not tv': (['not', R(), 'tv'], ('not', 'tv')),
+    'screen and (max-width:5px)': (['screen', R(), 'and', R(), '(', O(), 'max-width', O(), ':', O(), '5px', O(), ')'], ('screen', 'and', '(', 'max-width', ':', '5px', ')')),
+    'tv and (color)': (['tv', R(), 'and', R(), '(', O(), 'color', O(), ')'], ('tv', 'and', '(', 'color', ')')),
+    'tv': (['tv'], ('tv',)),
+    'all and (color)': (['all', R(), 'and', R(), '(', O(), 'color', O(), ')'], ('all', 'and', '(', 'color', ')')),
+    'only screen': (['only', R(), 'screen'], ('only', 'screen')),
 }
 
 
